@@ -1371,11 +1371,13 @@ class Interp:
 
     # ----------------------------------------------------------------- comprehension (static only)
     def ex_ListComp(self, e, fr):
-        return VList(self._comp(e, fr))
+        return self.ex_GeneratorExp(e, fr)
 
     def ex_GeneratorExp(self, e, fr):
         if len(e.generators) == 1 and not e.generators[0].ifs:
             it = self.eval(e.generators[0].iter, fr)
+            if isinstance(it, VBytes) and not isinstance(it.length(), int):
+                it = VSeq(it.length(), lambda i, _b=it: _b.at(i), 'bytes')
             if isinstance(it, VSeq):
                 g = e.generators[0]
 
